@@ -8,6 +8,7 @@ pub mod c02;
 pub mod c03;
 pub mod c04;
 pub mod c05;
+pub mod c06;
 pub mod c07;
 pub mod c08;
 pub mod c09;
@@ -25,7 +26,7 @@ pub mod c20;
 
 pub fn all() -> Vec<&'static Spec> {
     vec![
-        &c01::SPEC, &c02::SPEC, &c03::SPEC, &c04::SPEC, &c05::SPEC, &c07::SPEC, &c08::SPEC, &c09::SPEC, &c10::SPEC, &c11::SPEC, &c12::SPEC, &c13::SPEC,
+        &c01::SPEC, &c02::SPEC, &c03::SPEC, &c04::SPEC, &c05::SPEC, &c06::SPEC, &c07::SPEC, &c08::SPEC, &c09::SPEC, &c10::SPEC, &c11::SPEC, &c12::SPEC, &c13::SPEC,
         &c14::SPEC, &c15::SPEC, &c16::SPEC, &c17::SPEC, &c18::SPEC, &c19::SPEC, &c20::SPEC,
     ]
 }
